@@ -13,7 +13,7 @@ RULE = ("explicit-state BFS over histories of definitions (0-3 parameters in ide
         "signature list x configuration")
 
 TRIGGERS = [":keyword", ":param **kwargs:", "KW!"]
-STRIPS = ["", "^_[a-zA-Z]*_", "^_", "x"]
+STRIPS = ["", "^_[a-zA-Z]*_", "^_", "x", r"\W+", "^[^_]*_"]   # the last two can match across a separator if parameters were joined
 DOCS = [None, ["Plain text only."], ["Takes :keyword foo: a thing."], ["Doc.", ":param **kwargs: more"],
         ["Shout KW! here"], ["near miss :Keyword and kw! and :param *kwargs:"]]
 PARAMS = [[], ["_pfx_name"], ['"q p"', "${ref}", "[[br x]]"], ["x_arg", "_x", "plain"]]
@@ -104,5 +104,8 @@ def run(ctx):
 
 def replay(case):
     events = case if isinstance(case, list) else case["events"]
-    msgs, _, _, _ = check(events, configs(True), "lower")
-    return msgs
+    for cs in ("lower", "upper", "mixed"):      # the search used a seed-rotated command-name case
+        msgs, _, _, _ = check(events, configs(True), cs)
+        if msgs:
+            return msgs
+    return []
